@@ -41,6 +41,9 @@ type jCase struct {
 	Cls    []string `json:"cls"`    // empty: every class
 	Rot    *int     `json:"rot"`    // which real ids the model's three ids stand for (-1: ids are taken literally)
 	Makers []jMaker `json:"makers"` // non-empty: these inputs instead of the universe (replay)
+	// Mats renames the model's key materials for this case (m1 -> m7, f1 -> f7, ...). A material's number deals its key
+	// type, so the renaming decides which key types the keyset mixes and in which order.
+	Mats map[string]string `json:"mats"`
 }
 
 func ptProto(pt string) tinkpb.OutputPrefixType {
